@@ -27,25 +27,28 @@ func TestDbg(t *testing.T) {
 				}
 			}()
 			pages, _ := render.Layout(render.Options{HTML: html, Engine: "pango"})
-			tb := findTable(pages[0])
-			if tb == nil {
-				fmt.Println("   no table")
-				return
-			}
-			fmt.Printf("   table x=%v w=%v h=%v cols=%v pos=%v\n", tb.ContentBoxX(), tb.Width, tb.Height, tb.ColumnWidths, tb.ColumnPositions)
-			y := 0
-			for _, grp := range tb.Children {
-				for _, r := range grp.Box().Children {
-					fmt.Printf("   row %d top=%v h=%v:", y, r.Box().PositionY, r.Box().Height)
-					for _, c := range r.Box().Children {
-						f := c.Box()
-						fmt.Printf(" [gx=%d cs=%d rs=%d x=%v..%v y=%v..%v]", f.GridX, f.Colspan, f.Rowspan, f.BorderBoxX(), f.BorderBoxX()+f.BorderWidth(), f.BorderBoxY(), f.BorderBoxY()+f.BorderHeight())
-					}
-					fmt.Println()
-					y++
+			for pn, pg := range pages {
+				tb := findTable(pg)
+				if tb == nil {
+					fmt.Println("   page", pn, "no table")
+					continue
 				}
+				fmt.Println("   page", pn)
+				fmt.Printf("   table x=%v w=%v h=%v cols=%v pos=%v\n", tb.ContentBoxX(), tb.Width, tb.Height, tb.ColumnWidths, tb.ColumnPositions)
+				y := 0
+				for _, grp := range tb.Children {
+					for _, r := range grp.Box().Children {
+						fmt.Printf("   row %d(src %d) top=%v h=%v:", y, rowID(r.Box()), r.Box().PositionY, r.Box().Height)
+						for _, c := range r.Box().Children {
+							f := c.Box()
+							fmt.Printf(" [gx=%d cs=%d rs=%d x=%v..%v y=%v..%v]", f.GridX, f.Colspan, f.Rowspan, f.BorderBoxX(), f.BorderBoxX()+f.BorderWidth(), f.BorderBoxY(), f.BorderBoxY()+f.BorderHeight())
+						}
+						fmt.Println()
+						y++
+					}
+				}
+				verify(d, g, tb, pn, reporter{fail: func(c, det string) { fmt.Println("   FAIL", c, ":", det) }, count: func(string, int64) {}})
 			}
-			verify(d, g, tb, reporter{fail: func(c, det string) { fmt.Println("   FAIL", c, ":", det) }, count: func(string, int64) {}})
 		}()
 	}
 }
